@@ -67,6 +67,28 @@ func (m *rwModel) underlying(c ssa.CallInstruction) (string, bool) {
 	if unwrapAddr(cc.Value).hasField(m.writerF) {
 		return cc.Method.Name(), true
 	}
+	// the underlying writer handed back by a module function (ensureWriteHeader() http.ResponseWriter):
+	// every return of that function is the Writer field
+	v := cc.Value
+	if ta, ok := v.(*ssa.TypeAssert); ok {
+		v = ta.X
+	}
+	if ci, ok := v.(*ssa.Call); ok {
+		if sc := staticCallee(ci); sc != nil && m.w.InModule(sc) && sc.Signature.Results().Len() == 1 {
+			all, n := true, 0
+			eachInstr(sc, func(in ssa.Instruction) {
+				if ret, isRet := in.(*ssa.Return); isRet && len(ret.Results) == 1 {
+					n++
+					if !unwrapAddr(ret.Results[0]).hasField(m.writerF) {
+						all = false
+					}
+				}
+			})
+			if all && n > 0 {
+				return cc.Method.Name(), true
+			}
+		}
+	}
 	return "", false
 }
 
@@ -281,6 +303,10 @@ func ruleC08Latch(r *Run) {
 					if c, ok := ex.Tuple.(*ssa.Call); ok {
 						if mth, ok := m.underlying(c); ok && (mth == "Write" || mth == "ReadFrom" || mth == "WriteString") {
 							okAdd = true
+							// every byte the underlying writer accepted is counted: no path from the call to a return
+							// skips the update (a short write that comes with an error still delivered n bytes)
+							all, _ := allPathsHit(f, c, func(x ssa.Instruction) bool { return x == ssa.Instruction(st) })
+							r.Check(rule, construct+" on every path", w.InstrPos(st), all, map[bool]string{true: "every path from the underlying " + mth + " to a return adds its count to length", false: "a path returns after the underlying " + mth + " without adding the accepted byte count (e.g. an early return on error): Length() under-reports what was sent"}[all])
 						}
 					}
 				}
@@ -369,6 +395,10 @@ func findFrame(w *World, cg *CallGraph) (frameFn *ssa.Function, deferIn *ssa.Def
 					frameFn, deferIn, closure = f, d, fn
 					n++
 				}
+			} else if sc := d.Call.StaticCallee(); sc != nil && w.InModule(sc) && len(callsRecover(sc)) > 0 {
+				// the recovering frame written as a named function / method that is deferred directly
+				frameFn, deferIn, closure = f, d, sc
+				n++
 			}
 		})
 	}
